@@ -109,6 +109,57 @@ def native(name, conc, notes):
             "detail": f"real Terminal.map_fmmu on this table: {res}"}
 
 
+def native_two_tasks(name, conc, notes):
+    """two tasks map the same real terminal at once; the bus write yields to
+    the event loop (as a real round trip does)"""
+    from ebpfcat.ethercat import Terminal
+    bad = []
+    for n_fmmu in (1, 2, 3, 4):
+        hw = {}
+
+        class EC:
+            async def roundtrip(self, cmd, pos, offset, *args, data=None, idx=0):
+                await asyncio.sleep(0)
+                if 0x600 <= offset < 0x700 and len(args) > 1:
+                    k = (offset - 0x600) // 0x10
+                    if offset % 0x10 == 0:
+                        if hw.get(k) is not None:
+                            bad.append(f"{n_fmmu} FMMUs: FMMU {k}, live for logical address {hw[k]:#x}, is "
+                                       f"reprogrammed for {args[1]:#x}")
+                        hw[k] = args[1]
+                    elif offset % 0x10 == 0xc:
+                        hw[k] = None
+                return ()
+        t = object.__new__(Terminal)
+        t.ec, t.position = EC(), 3
+        t.fmmu_used = [None] * n_fmmu
+        t.pdo_out_off, t.pdo_out_sz, t.pdo_in_off, t.pdo_in_sz = 0x1000, 4, 0x1100, 6
+        got = []
+
+        async def user(logical):
+            try:
+                async with t.map_fmmu(logical, False) as idx:
+                    got.append(idx)
+                    await asyncio.sleep(0)
+                    await asyncio.sleep(0)
+            except ValueError:
+                got.append(None)
+
+        async def main():
+            await asyncio.gather(user(0x10000), user(0x20000))
+        try:
+            asyncio.run(main())
+        except Exception as e:      # noqa
+            bad.append(f"{n_fmmu} FMMUs: {type(e).__name__}: {e}")
+        live = [g for g in got if g is not None]
+        if len(set(live)) != len(live):
+            bad.append(f"{n_fmmu} FMMUs: both mappings got FMMU {live[0]}")
+        if n_fmmu == 1 and len(live) == 2:
+            bad.append("1 FMMU: two live mappings on a terminal with one FMMU")
+    return {"inputs": {"scenario": "two tasks map one terminal concurrently, 1-4 FMMUs"}, "reproduced": bool(bad),
+            "detail": f"real Terminal.map_fmmu from two tasks on a bus that yields: {bad[:3]}"}
+
+
 def run(tier, seed):
     from contracts import c20_fmmu as S
     rep = R.Report("C20", tier, seed)
@@ -118,6 +169,8 @@ def run(tier, seed):
     rep.assume("bus contract: an FMMU register write is recorded and may fail with EtherCatError")
     rep.assume("list[start::-1].index(None): first None from `start` downwards (modelled with exact clamping)")
     api.verify(S.map_fmmu, rep, replay=native, options={"cancellation": False})
+    api.verify(S.map_fmmu_interleaved(), rep, replay=native_two_tasks, options={"cancellation": False})
+    api.REGISTRY[S.map_fmmu.qualname] = S.map_fmmu
     return rep.finish(
         explanation="pyvc: the real source of Terminal.map_fmmu (an @asynccontextmanager, split at its yield "
         "into enter/exit halves; Terminal.write inlined) is executed symbolically for tables of any length and "
